@@ -813,7 +813,7 @@ func (c *Ctx) havocLoop(pre *State, li *loopInfo) *State {
 			continue
 		}
 		cond := And(append([]Term{app(SBool, "<=", r, pre.alloc)}, excl...)...)
-		facts = append(facts, Term{fmt.Sprintf("(forall ((%s Int)) (! (=> %s (= (select %s %s) (select %s %s))) :pattern ((select %s %s))))",
+		c.qfact(st, Term{fmt.Sprintf("(forall ((%s Int)) (! (=> %s (= (select %s %s) (select %s %s))) :pattern ((select %s %s))))",
 			r.S, cond.S, nh.S, r.S, oldh.S, r.S, nh.S, r.S), SBool})
 	}
 	st.assume(c, And(facts...))
@@ -914,11 +914,16 @@ func (c *Ctx) execLoop(st *State, lp loopParts) outcome {
 	hinvs, _, hfacts := c.invariantTerms(head, ls, lp.bodyPos, auto)
 	head.assume(c, And(append(hfacts, hinvs...)...))
 	var decr0 Term
+	var decrTy types.Type = tInt
 	haveDecr := ls != nil && ls.Decreases != nil
 	if haveDecr {
 		env := c.newEnv(head, c.entry)
 		env.scopePos = lp.bodyPos
-		decr0 = c.name(env.idxTerm(env.eval(ls.Decreases.Expr)), "variant")
+		dv := env.eval(ls.Decreases.Expr)
+		if s, ok := dv.(Scalar); ok && s.Ty != nil && isIntType(s.Ty) {
+			decrTy = s.Ty
+		}
+		decr0 = c.name(env.idxTerm(dv), "variant")
 	}
 	exit := head.clone()
 	guard := TTrue
@@ -968,7 +973,13 @@ func (c *Ctx) execLoop(st *State, lp loopParts) outcome {
 			env := c.newEnv(cont, c.entry)
 			env.scopePos = lp.bodyPos
 			d1 := env.idxTerm(env.eval(ls.Decreases.Expr))
-			c.oblige(cont, "decreases", fmt.Sprintf("loop%d", ord), lp.pos, And(c.ile(c.idx(0), decr0), c.ilt(d1, decr0)), ls.Decreases.Text)
+			var goal Term
+			if c.mode == ModeBV && !isSigned(decrTy) {
+				goal = app(SBool, "bvult", d1, decr0)
+			} else {
+				goal = And(c.ile(c.idx(0), decr0), c.ilt(d1, decr0))
+			}
+			c.oblige(cont, "decreases", fmt.Sprintf("loop%d", ord), lp.pos, goal, ls.Decreases.Text)
 		}
 	}
 	// 3. after the loop: guard false, or break
@@ -1091,7 +1102,7 @@ func (c *Ctx) execFor(st *State, x *ast.ForStmt, label string) outcome {
 func (c *Ctx) execRange(st *State, x *ast.RangeStmt, label string) outcome {
 	xt := c.typeOf(x.X)
 	// hidden index variable
-	hid := types.NewVar(x.Pos(), c.pkg.types, "range#i", tInt)
+	hid := types.NewVar(x.Pos(), c.pkg.types, "range_i", tInt)
 	var n Term
 	var elemAt func(s *State, i Term) Val
 	var elemT types.Type
